@@ -27,7 +27,7 @@ import json
 import os
 import threading
 
-from harness import common
+from harness import common, names
 from harness.common import hx
 
 EXTRACT = ['ExCoord']
@@ -152,14 +152,17 @@ class Impl:
             self.c = TransferCoordinator()
         self.f = TransferFuture(coordinator=self.c)
         self.real_locks = real_locks
+        # private names by role (harness/names.py): a rename in /repo is followed, not reported
+        self.N = N = names.coordinator(TransferCoordinator)
+        for role in ('state_lock', 'done_callbacks_lock', 'failure_cleanups_lock', 'done_event', 'result', 'done_callbacks'):
+            if not hasattr(self.c, N[role]):
+                raise common.BuildBroken(f'TransferCoordinator has no attribute for the role {role} (looked for {N[role]}): '
+                                         'instrumentation no longer applies', '')
         if not real_locks:
-            for a in ('_lock', '_done_callbacks_lock', '_failure_cleanups_lock', '_done_event'):
-                if not hasattr(self.c, a):
-                    raise common.BuildBroken(f'TransferCoordinator has no attribute {a}: instrumentation no longer applies', '')
-            self.c._lock = TLock()
-            self.c._done_callbacks_lock = TLock()
-            self.c._failure_cleanups_lock = TLock()
-            self.c._done_event = TEvent()
+            setattr(self.c, N['state_lock'], TLock())
+            setattr(self.c, N['done_callbacks_lock'], TLock())
+            setattr(self.c, N['failure_cleanups_lock'], TLock())
+            setattr(self.c, N['done_event'], TEvent())
         self.env = parse_env(env) if isinstance(env, str) else env
         self.log = []
         self.regs = {'C': [], 'K': []}
@@ -171,6 +174,15 @@ class Impl:
         self.cur_op = None
         self.pre_status = None
         self.sx_inflight = 0
+
+    # ---- private state, by role
+    @property
+    def ev(self):
+        return getattr(self.c, self.N['done_event'])
+
+    @property
+    def res(self):
+        return getattr(self.c, self.N['result'])
 
     # ---- values
     def mk_exc(self, k, i):
@@ -217,7 +229,7 @@ class Impl:
             f.meta
             return 'st:' + STATUS.get(c.status, '?' + str(c.status))
         if p[0] == 'result':
-            if self.real_locks and not self.sched_mode and top and not c._done_event.is_set():
+            if self.real_locks and not self.sched_mode and top and not self.ev.is_set():
                 return 'blocked'        # with the genuine event the caller would simply wait
             try:
                 v = f.result()
@@ -233,14 +245,14 @@ class Impl:
         if p[0] == 'sx':
             e = self.mk_exc(p[1], int(p[2], 16))
             was_done = f.done()
-            before = (c.status, c.exception, c._result)
+            before = (c.status, c.exception, self.res)
             self.sx_inflight += 1
             try:
                 f.set_exception(e)
             except self.ex.TransferNotDoneError:
                 if was_done:
                     self.viol.append(('user-set-exception', 'future.set_exception raised TransferNotDoneError on a done future'))
-                if not self.sched_mode and (c.status, c.exception, c._result) != before:
+                if not self.sched_mode and (c.status, c.exception, self.res) != before:
                     self.viol.append(('user-set-exception', 'future.set_exception raised TransferNotDoneError but changed the state'))
                 return 'notdone'
             finally:
@@ -305,7 +317,12 @@ class Impl:
             # the real announce_done with the other two phases stubbed out -- for
             # this (outermost) call only: an announce nested in a callback runs whole
             cls = type(c)
-            saved_event = c._done_event
+            N = self.N
+            saved_event = self.ev
+            rfc, rdc = N['run_failure_cleanups'], N['run_done_callbacks']
+            if not (hasattr(cls, rfc) and hasattr(cls, rdc)):
+                raise common.BuildBroken(f'TransferCoordinator.announce_done no longer calls two runner methods ({rfc}, {rdc}): '
+                                         'the phase ops cannot be driven', '')
             depth = [0]
 
             def announce():
@@ -317,15 +334,15 @@ class Impl:
             try:
                 c.announce_done = announce
                 if h != 'ph1':
-                    c._run_failure_cleanups = lambda: None if depth[0] == 1 else cls._run_failure_cleanups(c)
+                    setattr(c, rfc, lambda: None if depth[0] == 1 else getattr(cls, rfc)(c))
                 if h != 'ph2':
-                    c._done_event = NullEvent(saved_event, depth)
+                    setattr(c, N['done_event'], NullEvent(saved_event, depth))
                 if h != 'ph3':
-                    c._run_done_callbacks = lambda: None if depth[0] == 1 else cls._run_done_callbacks(c)
+                    setattr(c, rdc, lambda: None if depth[0] == 1 else getattr(cls, rdc)(c))
                 c.announce_done()
             finally:
-                c._done_event = saved_event
-                for a_ in ('announce_done', '_run_failure_cleanups', '_run_done_callbacks'):
+                setattr(c, N['done_event'], saved_event)
+                for a_ in ('announce_done', rfc, rdc):
                     c.__dict__.pop(a_, None)
             return 'unit'
         if h in ('adc', 'afc'):
@@ -340,7 +357,7 @@ class Impl:
 
     def pending(self, lst):
         try:
-            ids = [fc._args[0].id for fc in lst]
+            ids = [getattr(fc, names.function_container(type(fc))['args'])[0].id for fc in lst]
         except Exception:
             return '?'
         return '.'.join(hx(i) for i in ids) if ids else '-'
@@ -348,7 +365,7 @@ class Impl:
     def observe_result(self):
         c = self.c
         try:
-            is_set = c._done_event.is_set()
+            is_set = self.ev.is_set()
         except Exception:
             return '?'
         if not is_set:
@@ -366,7 +383,7 @@ class Impl:
     def step(self, tok):
         """Execute one op; returns the observation string in the model driver's format."""
         c = self.c
-        pre_done, pre_status, pre_exc, pre_result = c.done(), c.status, c.exception, c._result
+        pre_done, pre_status, pre_exc, pre_result = c.done(), c.status, c.exception, self.res
         self.replaced_ok = False
         self.cur_op = tok
         self.pre_status = pre_status
@@ -385,9 +402,9 @@ class Impl:
         res_obs = self.observe_result()
         obs = '%s/%s,%s,%s,%s,%s,%s,%s,%s,%s' % (
             out, STATUS.get(post_status, '?' + str(post_status)), self.canon(post_exc),
-            'none' if c._result is None else hx(c._result) if isinstance(c._result, int) else '?',
-            '1' if c._done_event.is_set() else '0',
-            self.pending(c._failure_cleanups), self.pending(c._done_callbacks),
+            'none' if self.res is None else hx(self.res) if isinstance(self.res, int) else '?',
+            '1' if self.ev.is_set() else '0',
+            self.pending(c.failure_cleanups), self.pending(getattr(c, self.N['done_callbacks'])),
             '.'.join(self.log[n0:]) if len(self.log) > n0 else '-',
             'T' if post_done else 'F', res_obs)
         # ------------------------------------------------ the oracle
@@ -398,9 +415,9 @@ class Impl:
         if head in ('q', 'r') and pre_done and (out != 'rterr' or post_status != pre_status):
             V(('no-restart', f'{tok} on a done transfer ({pre_status}) gave {out}, status now {post_status}'))
         if pre_done and not self.replaced_ok and (post_status != pre_status or post_exc is not pre_exc
-                                                  or c._result is not pre_result):
+                                                  or self.res is not pre_result):
             V(('done-state-frozen', f'{tok} changed a done transfer from ({pre_status}, {self.canon(pre_exc)}, {pre_result}) to '
-               f'({post_status}, {self.canon(post_exc)}, {c._result})'))
+               f'({post_status}, {self.canon(post_exc)}, {self.res})'))
         if pre_exc is not None and post_exc is not pre_exc and not self.replaced_ok:
             V(('first-failure-kept', f'{tok} replaced the stored exception {self.canon(pre_exc)} by {self.canon(post_exc)}'))
         if (post_exc is not None) != (post_status in ('failed', 'cancelled')):
@@ -687,10 +704,10 @@ def run_concurrent(env, prefix, programs, chooser):
     results = [[] for _ in programs]
     current = [None] * len(programs)
     viol = []
-    seen = {'done': c.done(), 'core': (c._status, c._exception, c._result)}
+    seen = {'done': c.done(), 'core': (c.status, c.exception, im.res)}
 
     def check(s=None):
-        st, ex, rs = c._status, c._exception, c._result
+        st, ex, rs = c.status, c.exception, im.res
         now_done = st in ('failed', 'cancelled', 'success')
         running = [tk for tk in current if tk is not None]
         if (ex is not None) != (st in ('failed', 'cancelled')):
@@ -997,9 +1014,15 @@ def replay_schedule(case):
 
 # ---------------------------------------------------------------- static check
 
-STATE_ATTRS = ('_status', '_exception', '_result')
-STATE_READS = ('done', 'status', '_status', 'exception', '_exception', '_result')
-GUARDED_METHODS = ('cancel', 'set_exception', 'set_result', '_transition_to_non_done_state')
+def _static_names():
+    from s3transfer.futures import TransferCoordinator
+    N = names.coordinator(TransferCoordinator)
+    A = names.ClassAst(TransferCoordinator)
+    trans = set(A.self_calls('set_status_to_queued')) & set(A.self_calls('set_status_to_running'))
+    state_attrs = (N['status'], N['exception'], N['result'])
+    reads = ('done', 'status', 'exception') + state_attrs
+    guarded = ('cancel', 'set_exception', 'set_result') + tuple(sorted(trans) or ['_transition_to_non_done_state'])
+    return N['state_lock'], state_attrs, reads, guarded
 
 
 def static_atomicity():
@@ -1019,20 +1042,46 @@ def static_atomicity():
         return ['class TransferCoordinator not found in futures.py']
     problems = []
     found_writes = 0
+    LOCK, STATE_ATTRS, STATE_READS, GUARDED_METHODS = _static_names()
+
+    def is_self_lock(e):
+        return isinstance(e, ast.Attribute) and e.attr == LOCK and isinstance(e.value, ast.Name) and e.value.id == 'self'
 
     def is_state_lock(w):
-        for item in w.items:
-            e = item.context_expr
-            if isinstance(e, ast.Attribute) and e.attr == '_lock' and isinstance(e.value, ast.Name) and e.value.id == 'self':
-                return True
-        return False
+        return any(is_self_lock(item.context_expr) for item in w.items)
+
+    def is_acquire(st):
+        return isinstance(st, ast.Expr) and isinstance(st.value, ast.Call) and isinstance(st.value.func, ast.Attribute) \
+            and st.value.func.attr == 'acquire' and is_self_lock(st.value.func.value)
+
+    def visit_body(body, locked, fname):
+        # `self.<lock>.acquire()` followed by try/finally is the same critical section as `with`
+        prev_acquire = False
+        for st in body:
+            if prev_acquire and isinstance(st, ast.Try):
+                for ch in st.body + st.orelse + [h for hd in st.handlers for h in hd.body]:
+                    visit(ch, True, fname)
+                for ch in st.finalbody:
+                    visit(ch, locked, fname)
+            else:
+                visit(st, locked, fname)
+            prev_acquire = is_acquire(st)
 
     def visit(node, locked, fname):
         nonlocal found_writes
         if isinstance(node, ast.With):
             inner = locked or is_state_lock(node)
-            for ch in node.body:
-                visit(ch, inner, fname)
+            visit_body(node.body, inner, fname)
+            return
+        if isinstance(node, (ast.If, ast.For, ast.While, ast.Try)) and not isinstance(node, ast.With):
+            for fld in ('test', 'iter', 'target'):
+                sub = getattr(node, fld, None)
+                if sub is not None:
+                    visit(sub, locked, fname)
+            for fld in ('body', 'orelse', 'finalbody'):
+                visit_body(getattr(node, fld, []) or [], locked, fname)
+            for hd in getattr(node, 'handlers', []) or []:
+                visit_body(hd.body, locked, fname)
             return
         if isinstance(node, (ast.Assign, ast.AugAssign, ast.AnnAssign)):
             targets = node.targets if isinstance(node, ast.Assign) else [node.target]
@@ -1041,21 +1090,20 @@ def static_atomicity():
                     if isinstance(sub, ast.Attribute) and sub.attr in STATE_ATTRS:
                         found_writes += 1
                         if not locked:
-                            problems.append(f'{fname}: write to self.{sub.attr} at line {node.lineno} is not inside `with self._lock`')
+                            problems.append(f'{fname}: write to self.{sub.attr} at line {node.lineno} is not inside `with self.{LOCK}`')
         if fname in GUARDED_METHODS and not locked and isinstance(node, ast.Attribute) and \
                 isinstance(node.ctx, ast.Load) and node.attr in STATE_READS and \
                 isinstance(node.value, ast.Name) and node.value.id == 'self':
-            problems.append(f'{fname}: self.{node.attr} is read at line {node.lineno} outside `with self._lock` '
+            problems.append(f'{fname}: self.{node.attr} is read at line {node.lineno} outside `with self.{LOCK}` '
                             '(check-then-act: the decision can be stale when the write happens)')
         if isinstance(node, ast.Call) and isinstance(node.func, ast.Attribute) and node.func.attr == 'announce_done' and locked:
-            problems.append(f'{fname}: announce_done() called at line {node.lineno} while holding self._lock')
+            problems.append(f'{fname}: announce_done() called at line {node.lineno} while holding self.{LOCK}')
         for ch in ast.iter_child_nodes(node):
             visit(ch, locked, fname)
 
     for fn in cls[0].body:
         if isinstance(fn, ast.FunctionDef) and fn.name != '__init__':
-            for st in fn.body:
-                visit(st, False, fn.name)
+            visit_body(fn.body, False, fn.name)
     if found_writes < 6:
         problems.append(f'only {found_writes} state writes recognised in TransferCoordinator (expected the 8 of set_result/set_exception/cancel/_transition): the static check no longer understands the class')
     return problems
